@@ -8,6 +8,7 @@ import (
 	"slices"
 	"strings"
 	"sync"
+	"sync/atomic"
 	"time"
 
 	"github.com/gordian-engine/gordian/gexchange"
@@ -41,6 +42,9 @@ type Connection struct {
 	outgoingPrecommitProofs chan tmconsensus.PrecommitSparseProof
 
 	setConsensusHandlerRequests chan setConsensusHandlerRequest
+
+	// The handler consulted by the topic validator; nil until one is set.
+	handler atomic.Pointer[consensusHandlerBox]
 
 	wg sync.WaitGroup
 
@@ -106,7 +110,7 @@ func NewConnection(ctx context.Context, log *slog.Logger, h *Host, codec tmcodec
 func (c *Connection) background(ctx context.Context) {
 	defer c.wg.Done()
 
-	if err := c.h.PubSub().RegisterTopicValidator(topicConsensus, ignoreMessage); err != nil {
+	if err := c.h.PubSub().RegisterTopicValidator(topicConsensus, c.validateConsensusMessage); err != nil {
 		c.log.Warn("Failed to initialize consensus topic validator", "err", err)
 	}
 
@@ -175,40 +179,36 @@ func (c *Connection) background(ctx context.Context) {
 			}
 
 		case req := <-c.setConsensusHandlerRequests:
-			// There is always a topic validator, so unregister the previous one.
-			if err := c.h.PubSub().UnregisterTopicValidator(topicConsensus); err != nil {
-				c.log.Warn("Failed to unregister previous topic validator for consensus messages", "err", err)
-			}
-
-			// NOTE: there is a potential race right here,
-			// where we temporarily have no topic validator set,
-			// between removing and replacing it.
-			//
-			// Unfortunately it doesn't look like there is a way to atomically swap the validator,
-			// nor is there an obvious way to leave the topic and
-			// instantaneously join it while setting a validator.
-			//
-			// Perhaps the alternative is to have a fixed method as the topic validator,
-			// and use sync/atomic to swap the handler.
-
-			// Always reassign a topic validator.
+			// The topic validator registered above is fixed and consults c.handler,
+			// so swapping the handler leaves no moment without a validator
+			// (unregistering and registering a new validator did:
+			// a message arriving in between was relayed unchecked).
 			gchan.VerifPoint(ctx, "tmlibp2p.swap")
 			if req.Handler == nil {
-				if err := c.h.PubSub().RegisterTopicValidator(topicConsensus, ignoreMessage); err != nil {
-					c.log.Warn("Failed to register consensus topic validator when clearing handler", "err", err)
-				}
+				c.handler.Store(nil)
 			} else {
-				if err := c.h.PubSub().RegisterTopicValidator(
-					topicConsensus,
-					c.libp2pConsensusMessageValidator(req.Handler),
-				); err != nil {
-					c.log.Warn("Failed to register topic validator for consensus messages", "err", err)
-				}
+				c.handler.Store(&consensusHandlerBox{h: req.Handler})
 			}
 
 			close(req.Ready)
 		}
 	}
+}
+
+// consensusHandlerBox wraps the interface value so it can be swapped atomically.
+type consensusHandlerBox struct {
+	h tmconsensus.ConsensusHandler
+}
+
+// validateConsensusMessage is the one topic validator for consensus messages.
+// It applies the handler most recently set through SetConsensusHandler,
+// and ignores every message while there is none.
+func (c *Connection) validateConsensusMessage(ctx context.Context, id peer.ID, msg *pubsub.Message) pubsub.ValidationResult {
+	box := c.handler.Load()
+	if box == nil {
+		return ignoreMessage(ctx, id, msg)
+	}
+	return c.libp2pConsensusMessageValidator(box.h)(ctx, id, msg)
 }
 
 // ignoreMessage is a pubsub validator that ignores all incoming messages.
